@@ -15,6 +15,9 @@ ASSUMPTIONS = [
     "E1 sequence lemma: a parser built by its real __init__ runs connect_pin_to_wire(pin, name, i) while reading model A and then "
     "while reading model B (symbolic names over {x, y} for the requests and for the one existing net of each model, i in 0..1): each "
     "pin ends on bit i of a net with that name owned by the model being read, created there if absent; nets never leak between models",
+    "kernel (E2): EBLIFComposer.find_and_write_additional_instance_info on an instance whose EBLIF.attr / EBLIF.param tables are present "
+    "or absent with 0..2 entries each (concrete keys, symbolic values) and .cname on or off: a reference reader of the line format "
+    "recovers exactly the stored tables and name from the written lines",
     "outside: statement-order glue, line continuation, .names covers, whole files",
 ]
 
@@ -23,6 +26,7 @@ def jobs(tier):
     tmo = 120 if tier == "quick" else 900
     out = [e2job("C18", "c18", fn, tmo, tier) for fn in
            ("h_indexed_name_round_trip", "h_scalar_name_is_index_zero", "h_never_crashes_on_bracket_text")]
+    out.append(e2job("C18", "c18", "h_instance_attr_param_cname_lines_all_written", max(tmo, 400), tier))
     out.append(dict(name="C18/merge_wires", engine="E1/symheap", module="vf.e1.eblif_jobs", func="merge_wires_job",
                     timeout=1500, args=dict(tier=tier)))
     out.append(dict(name="C18/connect_two_models", engine="E1/symheap", module="vf.e1.eblif_jobs", func="connect_two_models_job",
